@@ -381,6 +381,56 @@ def make_limited():
     return limited, set_limit
 
 
+def make_naming_args():
+    """Contracts defined dynamically (as a factory or a test would do), violated and dropped again."""
+
+    @icontract.require(lambda _ARGS: len(_ARGS) > 5, enabled=True)
+    def dyn_args(*args):
+        return args
+
+    return dyn_args
+
+
+def make_naming_kwargs():
+    @icontract.require(lambda _KWARGS: "z" in _KWARGS, enabled=True)
+    def dyn_kwargs(**kwargs):
+        return kwargs
+
+    return dyn_kwargs
+
+
+def make_plain():
+    @icontract.require(lambda x: x > 0, enabled=True)
+    def dyn_plain(x, y=2):
+        return x
+
+    return dyn_plain
+
+
+def make_plain_variadic():
+    @icontract.require(lambda x: x > 0, enabled=True)
+    def dyn_plain_variadic(x, *args, **kwargs):
+        return x
+
+    return dyn_plain_variadic
+
+
+@icontract.require(lambda x: x [0] > 0, enabled=True)
+def f60(x):
+    return x
+
+
+@icontract.require(
+    lambda x, y: x
+    [0] > y and x [
+        1
+    ] > y,
+    enabled=True,
+)
+def f61(x, y):
+    return x
+
+
 def _long_string():
     return "".join(chr(ord("a") + (i * 7) % 26) for i in range(300))
 
@@ -448,5 +498,11 @@ CASES = [
     {"id": "c57", "fn": "f57", "args": [], "kwargs": {"value": 3}, "hidden_exprs": ["kind"]},
     {"id": "c58", "fn": "f58", "args": [], "kwargs": {"x": 3, "table": {1: 2}}, "hidden_exprs": ["getter"]},
     {"id": "c59", "fn": "f59", "args": [], "kwargs": {"x": 3}, "hidden_exprs": ["fn", "mod", "bi"]},
+    {"id": "c60", "fn": "f60", "args": [], "kwargs": {"x": [0, 1]}},
+    {"id": "c61", "fn": "f61", "args": [], "kwargs": {"x": [3, 1], "y": 2}},
+    {"id": "c62", "factory": "make_naming_args", "fn": "make_naming_args", "args": [1, 2], "kwargs": {}, "names_args": True},
+    {"id": "c63", "factory": "make_naming_kwargs", "fn": "make_naming_kwargs", "args": [], "kwargs": {"a": 1}, "names_kwargs": True},
+    {"id": "c64", "factory": "make_plain", "fn": "make_plain", "args": [-1], "kwargs": {}},
+    {"id": "c65", "factory": "make_plain_variadic", "fn": "make_plain_variadic", "args": [-1, 5], "kwargs": {"k": 1}},
     {"id": "c45", "fn": "f45", "args": [], "kwargs": {"x": 123456789012345678901234567890, "helper_fn": helper}, "a_repr": SMALL, "hidden": ["helper_fn"]},
 ]
